@@ -18,7 +18,8 @@ RULE = (
     "tsamp in {1e-3, 64e-6} x input depth {8,32}: APIs = collapse, dedisperse, read_chan(every c), read_block (every sub-range; every "
     "(first channel k, nchans m) selection requested by float32 label and by float64 value), read_dedisp_block, invert_freq, "
     "apply_channel_mask, downsample (tfactor x ffactor), extract_samps, extract_chans, extract_bands, subband (nsub x DM), remove_zerodm "
-    "(each with start in {0,3}), FilterbankBlock.downsample/dedisperse/get_tim/dmt_transform/to_file, TimeSeries.downsample/pad. "
+    "requantize (each with start in {0,3}), FilterbankBlock.downsample/dedisperse/get_tim/dmt_transform/to_file/normalise/pad_samples, "
+    "TimeSeries.downsample/pad/normalise/apply_boxcar/deredden/resample/correlate. "
     "Checked: nsamples/nchans = data shape, nbits = on-disk width, tsamp x tfactor, tstart + start*tsamp (5 us), dm applied, channel "
     "labels (copies within 1e-3|foff|, sums inside the span of their members, spacing foff x factor), rows returned for a label "
     "request. Non-trivial = start>0, or a channel selection/combination, or a non-dyadic foff"
@@ -256,6 +257,50 @@ def run_shard(shard: dict, ctx, res, only=None) -> None:
             cb.check("FilterbankBlock.to_file", [], h, shape=(nbytes * 8 // (32 * C), C), src=allc, file_nbits=32, kind="file")
 
         guard("FilterbankBlock.to_file", [], f_tofile)
+
+        # further derived containers: the header must keep describing the data (shape, tsamp, labels)
+        def f_norm():
+            b = blk.normalise()
+            cb.check("FilterbankBlock.normalise", [], b.header, shape=(b.data.shape[1], b.data.shape[0]), src=allc)
+
+        guard("FilterbankBlock.normalise", [], f_norm)
+        for nfin, off in ((14, 0), (14, 3), (10, 0)):
+            def f_padb(nfin=nfin, off=off):
+                b = blk.pad_samples(nfin, off)
+                cb.check("FilterbankBlock.pad_samples", [nfin, off], b.header, shape=(b.data.shape[1], b.data.shape[0]), src=allc)
+
+            guard("FilterbankBlock.pad_samples", [nfin, off], f_padb)
+        tsb = blk.get_tim()
+
+        def f_tsn():
+            t = tsb.normalise()
+            cb.check("TimeSeries.normalise", [], t.header, shape=(t.data.size, 1), src=None)
+
+        guard("TimeSeries.normalise", [], f_tsn)
+        for w in (1, 2, 3):
+            def f_box(w=w):
+                t = tsb.apply_boxcar(w)
+                cb.check("TimeSeries.apply_boxcar", [w], t.header, shape=(t.data.size, 1), src=None)
+
+            guard("TimeSeries.apply_boxcar", [w], f_box)
+
+        def f_dered():
+            t = tsb.deredden(window=3 * Hb.tsamp)
+            cb.check("TimeSeries.deredden", [], t.header, shape=(t.data.size, 1), src=None)
+
+        guard("TimeSeries.deredden", [], f_dered)
+        for acc in (0.0, 5.0, -5.0):
+            def f_res(acc=acc):
+                t = tsb.resample(acc)
+                cb.check("TimeSeries.resample", [acc], t.header, shape=(t.data.size, 1), src=None)
+
+            guard("TimeSeries.resample", [acc], f_res)
+
+        def f_corr():
+            t = tsb.correlate(np.ones(3, dtype=np.float32))
+            cb.check("TimeSeries.correlate", [], t.header, shape=(t.data.size, 1), src=None)
+
+        guard("TimeSeries.correlate", [], f_corr)
     elif g == "files":
         for start in (0, 3):
             n_eff = N - start
@@ -335,4 +380,11 @@ def run_shard(shard: dict, ctx, res, only=None) -> None:
                 chk.check("Filterbank.remove_zerodm", [start], h, shape=(n_eff, C), src=allc, start=start, file_nbits=disk_nbits(nb, n_eff, C), kind="file")
 
             guard("Filterbank.remove_zerodm", [start], f_zdm)
+            for nbo in (8, 32, 16):
+                def f_rq(nbo=nbo, start=start, rk=rk, n_eff=n_eff):
+                    fil.requantize(nbo, outfile_name=out, **rk)
+                    h, nb = hdr_of(out)
+                    chk.check("Filterbank.requantize", [nbo, start], h, shape=(n_eff, C), src=allc, start=start, file_nbits=disk_nbits(nb, n_eff, C), kind="file")
+
+                guard("Filterbank.requantize", [nbo, start], f_rq)
     res.sample({"shard": shard, "example": ["FilReader.read_block(fch1,nchans)", [3, 2, "label32"]]}, cap=1)
